@@ -120,6 +120,22 @@ func (ex *Exec) VerifyFunc(ct *Contract) (res *FuncResult) {
 			vars[fv.Name()] = pv
 		}
 	}
+	// parameters of the enclosing functions that this closure does not capture: its contract may still speak about
+	// them (a changed body may simply have stopped using one) - they are arbitrary values the closure cannot change
+	outer := map[string]Val{}
+	for p := fn.Parent(); p != nil; p = p.Parent() {
+		for _, pp := range p.Params {
+			if _, ok := vars[pp.Name()]; ok || pp.Name() == "" || pp.Name() == "_" {
+				continue
+			}
+			if _, isSig := pp.Type().Underlying().(*types.Signature); isSig {
+				continue
+			}
+			c := st.FreshOf("outer_"+pp.Name(), pp.Type())
+			vars[pp.Name()] = c
+			outer[pp.Name()] = c
+		}
+	}
 	// requires
 	envR := &SpecEnv{ex: ex, vars: vars, cur: st, pkg: ct.Pkg, bound: map[string]T{}}
 	for _, rq := range ct.Requires {
@@ -155,6 +171,9 @@ func (ex *Exec) VerifyFunc(ct *Contract) (res *FuncResult) {
 			if c, ok := st2.cells[id]; ok {
 				rv["final_"+name] = c
 			}
+		}
+		for name, c := range outer {
+			rv["final_"+name] = c
 		}
 		// ghost variables of iterators / ranges alive at the return (function-internal clauses may use them)
 		for name, res := range st2.callRes {
